@@ -357,6 +357,23 @@ def run_history(rec, case):
                 causes_used.add('wsbreak')
                 if R.ws_break(s):
                     rec.count('ws_write_failures')
+            elif k < 0.668 and s.mode == 'websocket' and s.ws is not None \
+                    and not getattr(s, 'gone', False):
+                # a connection RESET: the server's next write fails (and so
+                # does whatever it tries on the connection after that), then
+                # its reader learns that the peer is gone - the session ends
+                # there and then, with a transport reason
+                causes_used.add('wsreset')
+                rec.count('ws_connection_resets')
+                s.ws.send_fails = True
+                s.autopong = None
+                R.causes.append({'s': s.n, 'cause': 'transport failure',
+                                 'c_start': sim.tick(), 'ws': s.ws,
+                                 't': sim.now})
+                R.send(s, 'text')
+                sim.quiesce()
+                R.ws_close(s, 'close')
+                sim.quiesce()
             elif k < 0.68:
                 causes_used.add('vanish')
                 R.vanish(s)
